@@ -306,7 +306,9 @@ pub fn run() -> Report {
             }
             // the same layout read through a height range: "the block delivered for a height" must not depend on where the run starts
             let (rs, re) = [(1u64, n as u64), (2, 3), (n as u64 - 1, n as u64), (1, 2)][_i % 4];
-            let spec = RunSpec::new("bitcoin", "csvdump").range(Some(rs), Some(re));
+            let mut spec = RunSpec::new("bitcoin", "csvdump").range(Some(rs), Some(re));
+            // ... and through a different directory-listing order (reversed / rotated; both the blk directory and LevelDB's)
+            spec.env.push(("VERIF_READDIR".into(), (1 + _i % 4).to_string()));
             let r = wk.run(&spec);
             acc.transitions += 1;
             acc.count("uniform-size-chain-with-range", 1);
@@ -335,7 +337,18 @@ pub fn run() -> Report {
             acc.states += 1;
             acc.transitions += 1;
             let (s, e) = (r.declared_start().unwrap_or(0), r.declared_end().unwrap_or(n as u64 - 1));
-            let bad = check_csvdump(&r, btc, &in_range(&all, s, e), s, e);
+            let mut bad = check_csvdump(&r, btc, &in_range(&all, s, e), s, e);
+            // every third layout once more with the directory entries served in another order (file-system dependent)
+            if bad.is_empty() && _i % 3 == 0 {
+                let mut spec2 = spec.clone();
+                spec2.env.push(("VERIF_READDIR".into(), (1 + (_i / 3) % 5).to_string()));
+                let r2 = wk.run(&spec2);
+                acc.transitions += 1;
+                acc.count("layouts-rerun-with-permuted-directory-listing", 1);
+                if r2.files != r.files || r2.code != r.code {
+                    bad.push(("output-depends-on-directory-listing-order".into(), format!("VERIF_READDIR={}: exit {:?} files {:?} vs exit {:?} files {:?}", 1 + (_i / 3) % 5, r2.code, r2.files.keys().collect::<Vec<_>>(), r.code, r.files.keys().collect::<Vec<_>>())));
+                }
+            }
             acc.nontrivial.insert(h8(format!("{:?}", l).as_bytes()));
             acc.outcomes.insert(h8(&r.files.values().flat_map(|v| refmodel::hash::sha256(v).to_vec()).collect::<Vec<u8>>()));
             acc.count(l.label.split(['#', '=']).next().unwrap_or("?"), 1);
